@@ -43,7 +43,8 @@ macro_rules! lms_impl {
             }
 
             fn sign(tr: &mut Trace, rng: &mut Rng, id: usize, k: &mut Key, crash: bool, deep: bool) {
-                let msg = { let l = *rng.pick(&[0usize, 1, 13, 32, 55, 56, 64, 100]); rng.bytes(l) };
+                // lengths around the block / rate boundaries of the message hash (its input is I, q, D_MESG, C, message: 22 + n bytes before the message)
+                let msg = { let l = *rng.pick(&[0usize, 1, 2, 9, 10, 13, 17, 18, 32, 55, 56, 64, 81, 82, 89, 90, 100]); rng.bytes(l) };
                 let mut t = TapeRng { inner: Rng::new(rng.u64()), tape: Vec::new(), fail: crash };
                 let e = Ev::new("sign").n("key", id as i64).b("msg", &msg).s("rng", if crash { "panic" } else { "ok" });
                 let e = if deep { e.t("deep", true) } else { e };
@@ -84,7 +85,8 @@ macro_rules! lms_impl {
                 let n = k0.sigs.len();
                 if n == 0 { return; }
                 let mut picks = vec![0usize, n - 1, rng.below(n)];
-                picks.dedup();
+                for (i, (_, m)) in k0.sigs.iter().enumerate() { if [81usize, 82, 89, 90, 9, 10, 17, 18].contains(&m.len()) && picks.len() < 8 { picks.push(i); } }
+                picks.sort(); picks.dedup();
                 let siglen = k0.sigs[0].0.len();
                 let otslen = 4 + $n + $n * (if $n == 32 { 34 } else { 26 });
                 for &i in &picks {
@@ -103,6 +105,14 @@ macro_rules! lms_impl {
                     // leaf index replaced by another leaf's
                     let mut a = sig.clone(); a[3] = a[3].wrapping_add(1) & 31; verify(tr, 0, &k0, &a, &msg, "altered-q");
                     let mut a = sig.clone(); a[0] = 0x80; verify(tr, 0, &k0, &a, &msg, "q-out-of-range");
+                    // the leaf number at and around the first value outside the tree (2^h = 32), and the extremes
+                    for qv in [31u32, 32, 33, 63, 64, 0x7FFFFFFF, 0xFFFFFFE0, 0xFFFFFFFF] {
+                        let mut a = sig.clone(); a[..4].copy_from_slice(&qv.to_be_bytes()); verify(tr, 0, &k0, &a, &msg, "q-boundary");
+                    }
+                    // the message extended / shortened by one byte (padding boundaries of the message hash)
+                    let mut m3 = msg.clone(); m3.push(0); verify(tr, 0, &k0, &sig, &m3, "message+00");
+                    let mut m3 = msg.clone(); m3.push(0x80); verify(tr, 0, &k0, &sig, &m3, "message+80");
+                    if !msg.is_empty() { let mut m3 = msg.clone(); m3.pop(); verify(tr, 0, &k0, &sig, &m3, "message-1"); }
                     let mut a = sig.clone(); a.push(0); verify(tr, 0, &k0, &a, &msg, "longer");
                     let mut a = sig.clone(); a.pop(); verify(tr, 0, &k0, &a, &msg, "shorter");
                     verify(tr, 0, &k0, &[], &msg, "empty");
